@@ -718,7 +718,8 @@ impl<'a> Parser<'a> {
                     Some(Keyword::ADD) => Some(AddDropSync::ADD),
                     Some(Keyword::DROP) => Some(AddDropSync::DROP),
                     Some(Keyword::SYNC) => Some(AddDropSync::SYNC),
-                    _ => None,
+                    // PARTITIONS belongs to ADD / DROP / SYNC: alone it is not part of the statement
+                    _ => return Ok(None),
                 };
                 parser.expect_keyword(Keyword::PARTITIONS)?;
                 Ok(pa)
@@ -10303,10 +10304,8 @@ impl<'a> Parser<'a> {
                 Err(e) => return Err(e),
             };
 
-            let with_offset = match self.expect_keywords(&[Keyword::WITH, Keyword::OFFSET]) {
-                Ok(()) => true,
-                Err(_) => false,
-            };
+            // all or nothing: a WITH that is not followed by OFFSET is not ours
+            let with_offset = self.parse_keywords(&[Keyword::WITH, Keyword::OFFSET]);
 
             let with_offset_alias = if with_offset {
                 match self.parse_optional_alias(keywords::RESERVED_FOR_COLUMN_ALIAS) {
